@@ -129,24 +129,26 @@ def run(ctx) -> None:
             continue
         calls = [e for e in p.events if e.kind == "call_unknown" and e.target.endswith("consume_instruction")]
         cfg = [e for e in p.events if e.kind == "cfg_get"]
-        loops = [e for e in p.events if e.kind == "call" and False]
         args = [I2.expr_of(c.args[0]) for c in calls if c.args]
-        ok = len(calls) == 1 and args == ["parse_line(<<FILE>.split('\\n')[*]>)"] and not cfg
-        # the filter
-        filt = None
-        for e in p.events:
-            pass
+        # the per-element decision: either a comprehension filter (kept as a flag of the abstract list) or an
+        # isinstance test in the loop body (a path assumption); nothing else may take part
+        other = [(k, v) for k, v, _ in p.conds if not (isinstance(k, tuple) and k[0] == "isinstance" and k[-1] == "Instruction")
+                 and not (isinstance(k, tuple) and k[0] == "truth")]
+        not_instr = any(isinstance(k, tuple) and k[0] == "isinstance" and k[-1] == "Instruction" and v is False for k, v, _ in p.conds)
+        empty = any(isinstance(k, tuple) and k[0] == "truth" and v is False for k, v, _ in p.conds)
+        want = [] if (not_instr or empty) else ["parse_line(<<FILE>.split('\\n')[*]>)"]
+        ok = args == want and not cfg and not other
         ctx.check(ok, "C16.I4.only-instructions-forwarded", "ObjdumpParserManual.parse",
-                  f"consumed={args} config-reads={[c.key for c in cfg]}"[:200],
+                  f"consumed={args} expected={want} config-reads={[c.key for c in cfg]} other-conditions={[str(k)[:40] for k, _ in other]}"[:240],
                   "every parsed line that is an Instruction is forwarded once, in line order; nothing else decides")
+    # any comprehension filter in parse is the Instruction test
     src = ctx.p.find_func("ObjdumpParserManual.parse")
     import ast as _ast
     comps = [n for n in _ast.walk(src.node) if isinstance(n, (_ast.ListComp, _ast.GeneratorExp))]
     filters = [_ast.unparse(c) for comp in comps for g in comp.generators for c in g.ifs]
-    ok = len(filters) == 1 and re.fullmatch(r"isinstance\(\w+, Instruction\)", filters[0]) is not None and \
-        not any(isinstance(n, (_ast.If, _ast.While, _ast.Try, _ast.Match)) for n in _ast.walk(src.node))
+    ok = all(re.fullmatch(r"isinstance\(\w+, Instruction\)", f) for f in filters)
     ctx.check(ok, "C16.I4.filter-is-instance-test", "ObjdumpParserManual.parse", f"filters={filters}",
-              "the only selection applied to parsed lines is isinstance(elem, Instruction)", where=src.where())
+              "a filter applied to the parsed lines is the isinstance(elem, Instruction) test", where=src.where())
     # I4b RemoveEmptyInstructions always first, and its literal is the one the parser writes
     Im = match_interp(ctx.p)
     n = 0
